@@ -52,6 +52,29 @@ func StructSites() map[string]bool {
 			}
 		}
 	}
+	// Does the order chosen at those sites really decide the order in which fields are processed? (A refactoring
+	// that sorts the keys after ranging over the map keeps the site but ignores its order.) Observe it.
+	OrderControlled = len(sites) > 0
+	for mode, site := range structSiteByMode {
+		d := NewDec(DecCfg{}, NewRng(1), Decisions{})
+		d.Forced["visit:"+site] = []int{1} // second key first
+		r2 := simrt.NewRun(d)
+		simrt.Install(r2)
+		var seen []string
+		s2 := z.Struct(z.Schema{
+			"qa": z.String().TestFunc(func(v any, c z.Ctx) bool { seen = append(seen, "qa"); return true }),
+			"qb": z.String().TestFunc(func(v any, c z.Ctx) bool { seen = append(seen, "qb"); return true }),
+		})
+		d2 := T{Qa: "x", Qb: "y"}
+		if mode == "parse" {
+			s2.Parse(map[string]any{"qa": "x", "qb": "y"}, &d2)
+		} else {
+			s2.Validate(&d2)
+		}
+		if len(seen) != 2 || seen[0] != "qb" {
+			OrderControlled = false
+		}
+	}
 	simrt.Uninstall()
 	if prev != nil {
 		simrt.Install(prev)
@@ -59,6 +82,10 @@ func StructSites() map[string]bool {
 	structSites = sites
 	return sites
 }
+
+// OrderControlled reports whether the simulator's choice at the struct-visit sites is the order in which the
+// library processes fields. When it is not, order-dependent expectations (PostTransform gating) are not modelled.
+var OrderControlled = true
 
 func structVisits(vs []simrt.Visit) []simrt.Visit {
 	sites := StructSites()
@@ -98,6 +125,10 @@ func ModelFor(n *Node, op *Op, res *Result) *Model {
 	}
 	if res != nil {
 		m.Visits = structVisits(res.Visits)
+		if !OrderControlled {
+			m.Visits = nil
+			m.OrderUnknown = true
+		}
 	}
 	in := MIn{V: op.Input}
 	m.Eval(n, in, "")
@@ -319,7 +350,7 @@ func (c *c01) walk(n *Node, in MIn, dv reflect.Value, path string, depth int) {
 			for _, e := range n.Def.L {
 				elems = append(elems, MIn{V: e})
 			}
-		} else if in.V.K == "l" {
+		} else if in.V.K == "l" || in.V.K == "tl" || in.V.K == "sl" {
 			for _, e := range in.V.L {
 				elems = append(elems, MIn{V: e})
 			}
@@ -398,6 +429,9 @@ func (c *c01) walk(n *Node, in MIn, dv reflect.Value, path string, depth int) {
 			inner = MIn{V: VL(l...)}
 		} else if in.V.K == "s" {
 			inner = MIn{V: VS(strings.TrimSpace(in.V.S))}
+		} else if in.V.IsNil() {
+			// Validate: the function's output ("" for a nil/zero input) replaces the value, also behind a pointer
+			inner = MIn{V: VS("")}
 		}
 		c.walk(n.Elem, inner, dv, path, depth)
 	}
@@ -498,6 +532,9 @@ func genModelWorld(r *Rng, prop string) *World {
 			v, missing := GenParseInput(r, &c, root)
 			if missing {
 				v = VNil()
+			}
+			if r.P(0.15) {
+				v = typedLists(root, v)
 			}
 			op.Input = v
 		}
